@@ -1,4 +1,5 @@
 import PvModel.Props.C23
+import PvModel.Props.C23Rel
 #print axioms Pv.C23_tree
 #print axioms Pv.C23_clpz
 #print axioms Pv.C23_operand_guard
@@ -6,3 +7,5 @@ import PvModel.Props.C23
 #print axioms Pv.C23_engine_total
 #print axioms Pv.C23_state_machine
 #print axioms Pv.C23_state_machine_distinctfd
+#print axioms Pv.C23_rel_no_panic
+#print axioms Pv.C23_rel_call_no_panic
